@@ -1,1 +1,217 @@
-//! generators
+//! Shared generators (DESIGN §3): values, typed expressions, untyped expressions, tokens.
+pub mod typed;
+pub mod untyped;
+
+use crate::chooser::Chooser;
+use crate::model::num::{f64_boundary, i64_boundary, u64_boundary};
+use crate::model::{F, V};
+
+pub const STR_POOL: [&str; 22] = ["", "a", "b", "ab", "abc", "z", "aa", "é", "ä", "日本", "𝄞", "a\"b", "x\\y", "l\nb", " ", "0", "1", "true", "k", "key", "A", "\u{10000}"];
+
+pub fn gen_i64(u: &mut Chooser) -> i64 {
+    match u.below(5) {
+        0 => u.range(-3, 10),
+        1 => *u.pick(&i64_boundary()),
+        2 => u.pick(&i64_boundary()).wrapping_add(u.range(-2, 2)),
+        3 => u.log_i64(),
+        _ => u.bits64() as i64,
+    }
+}
+
+pub fn gen_u64(u: &mut Chooser) -> u64 {
+    match u.below(5) {
+        0 => u.range(0, 10) as u64,
+        1 => *u.pick(&u64_boundary()),
+        2 => u.pick(&u64_boundary()).wrapping_add(u.range(-2, 2) as u64),
+        3 => u.log_u64(),
+        _ => u.bits64(),
+    }
+}
+
+pub fn gen_f64(u: &mut Chooser) -> f64 {
+    match u.below(5) {
+        0 => u.range(-4, 8) as f64 * 0.5,
+        1 => *u.pick(&f64_boundary()),
+        2 => u.log_i64() as f64,
+        3 => (u.log_i64() as f64) / 1024.0,
+        _ => f64::from_bits(u.bits64()),
+    }
+}
+
+pub fn gen_finite_f64(u: &mut Chooser) -> f64 {
+    let f = gen_f64(u);
+    if f.is_finite() {
+        f
+    } else {
+        1.5
+    }
+}
+
+pub fn gen_string(u: &mut Chooser) -> String {
+    match u.below(4) {
+        0 | 1 => u.pick(&STR_POOL).to_string(),
+        2 => {
+            let n = u.below(6);
+            let alpha: Vec<char> = "abcxyz01 _é".chars().collect();
+            (0..n).map(|_| *u.pick(&alpha)).collect()
+        }
+        _ => {
+            let n = u.below(5);
+            let alpha: Vec<char> = "aZ9\"'\\\n\t\r\u{0}\u{7f}é日𝄞 `?".chars().collect();
+            (0..n).map(|_| *u.pick(&alpha)).collect()
+        }
+    }
+}
+
+pub fn gen_bytes(u: &mut Chooser) -> Vec<u8> {
+    match u.below(4) {
+        0 => vec![],
+        1 => u.pick(&[&b"abc"[..], &b"a"[..], &[0u8][..], &[0xff, 0xfe][..], &[0xc3, 0x28][..], "é".as_bytes()]).to_vec(),
+        _ => {
+            let n = u.below(6);
+            (0..n).map(|_| u.below(256) as u8).collect()
+        }
+    }
+}
+
+/// durations as (secs, nanos): boundary-biased, including values beyond ±2^63 ns and chrono's limits
+pub fn gen_dur(u: &mut Chooser) -> V {
+    let i64max = i64::MAX as i128;
+    let pool: [i128; 22] = [
+        0,
+        1,
+        -1,
+        999,
+        -999,
+        1_000,
+        1_000_000,
+        -1_000_000,
+        1_000_000_000,
+        -1_000_000_000,
+        59_999_999_999,
+        60_000_000_000,
+        3_600_000_000_000,
+        -3_600_000_000_000,
+        i64max,
+        -i64max,
+        -i64max - 1,
+        i64max + 1,
+        -i64max - 2,
+        i64max * 3,
+        (i64::MAX / 1000) as i128 * 1_000_000_000,        // near chrono::Duration::MAX (i64::MAX ms)
+        -((i64::MAX / 1000) as i128) * 1_000_000_000,
+    ];
+    let ns = match u.below(3) {
+        0 => *u.pick(&pool),
+        1 => u.log_i64() as i128,
+        _ => u.pick(&pool) + u.range(-2, 2) as i128,
+    };
+    V::dur_ns(ns)
+}
+
+pub fn gen_ts(u: &mut Chooser) -> V {
+    // seconds for 0001-01-01T00:00:00Z and 9999-12-31T23:59:59Z
+    const MIN_S: i64 = -62135596800;
+    const MAX_S: i64 = 253402300799;
+    let secs = match u.below(4) {
+        0 => *u.pick(&[0i64, -1, 1, 951782400, 1685232000, MIN_S, MAX_S, 2147483647, 2147483648, -2208988800, 946684799, 946684800]),
+        1 => u.range(MIN_S, MAX_S),
+        2 => u.range(-100000, 100000) * 86400 + u.range(-1, 1),
+        // far outside years 1..9999 but inside chrono's range (≈ ±262000 years)
+        _ => u.range(-8_000_000_000_000, 8_000_000_000_000),
+    };
+    let nanos = *u.pick(&[0u32, 1, 999_999_999, 500_000_000, 123_456_789, 1_000_000, 999_000_000]);
+    let off = match u.below(4) {
+        0 => 0,
+        1 => *u.pick(&[3600, -3600, 19800, -43200, 50400, 60, -60, 86399, -86399]),
+        2 => u.range(-56, 56) as i32 * 900,
+        _ => u.range(-86399, 86399) as i32,
+    };
+    V::Ts(secs, nanos, off)
+}
+
+#[derive(Clone, Copy)]
+pub struct ValOpts {
+    pub funcs: bool,
+    pub time: bool,
+    pub nonfinite: bool,
+    pub invalid_utf8_bytes: bool,
+}
+
+impl ValOpts {
+    pub const ALL: ValOpts = ValOpts { funcs: true, time: true, nonfinite: true, invalid_utf8_bytes: true };
+    pub const CORE: ValOpts = ValOpts { funcs: false, time: false, nonfinite: true, invalid_utf8_bytes: true };
+}
+
+pub fn gen_key(u: &mut Chooser) -> V {
+    match u.below(5) {
+        0 => V::Str(u.pick(&["a", "b", "k", "key", "", "1", "true", "é"]).to_string()),
+        1 => V::Int(*u.pick(&[0i64, 1, -1, 2, i64::MAX, i64::MIN])),
+        2 => V::UInt(*u.pick(&[0u64, 1, 2, u64::MAX, 9223372036854775808])),
+        3 => V::Bool(u.flip()),
+        _ => V::Str(gen_string(u)),
+    }
+}
+
+/// any value, every variant (DESIGN §3 "Values")
+pub fn gen_value(u: &mut Chooser, depth: usize, o: ValOpts) -> V {
+    let kinds: usize = if depth == 0 { 9 } else { 11 };
+    let mut k = u.below(kinds + if o.funcs { 1 } else { 0 });
+    if k >= kinds {
+        k = 100;
+    }
+    match k {
+        0 => V::Int(gen_i64(u)),
+        1 => V::Null,
+        2 => V::Bool(u.flip()),
+        3 => V::UInt(gen_u64(u)),
+        4 => {
+            let f = gen_f64(u);
+            V::Float(F(if !o.nonfinite && !f.is_finite() { 0.5 } else { f }))
+        }
+        5 => V::Str(gen_string(u)),
+        6 => {
+            let b = gen_bytes(u);
+            if !o.invalid_utf8_bytes && std::str::from_utf8(&b).is_err() {
+                V::Bytes(b"ok".to_vec())
+            } else {
+                V::Bytes(b)
+            }
+        }
+        7 => {
+            if o.time {
+                gen_dur(u)
+            } else {
+                V::Int(gen_i64(u))
+            }
+        }
+        8 => {
+            if o.time {
+                gen_ts(u)
+            } else {
+                V::Str(gen_string(u))
+            }
+        }
+        9 => {
+            let n = u.below(4);
+            V::List((0..n).map(|_| gen_value(u, depth - 1, o)).collect())
+        }
+        10 => {
+            let n = u.below(4);
+            let mut es: Vec<(V, V)> = vec![];
+            for _ in 0..n {
+                let k = gen_key(u);
+                let v = gen_value(u, depth - 1, o);
+                if !es.iter().any(|(k2, _)| crate::model::same(k2, &k)) {
+                    es.push((k, v));
+                }
+            }
+            V::Map(es)
+        }
+        _ => {
+            let name = u.pick(&["size", "f", "contains", "g"]).to_string();
+            let inner = if u.flip() && depth > 0 { Some(Box::new(gen_value(u, depth - 1, o))) } else { None };
+            V::Func(name, inner)
+        }
+    }
+}
